@@ -132,8 +132,22 @@ func extractHygiene(p *pkgs, f *facts) {
 	} else {
 		f.miss = append(f.miss, "CmdRunner.Start")
 	}
-	f.lean = append(f.lean, fmt.Sprintf("def hygiene : Hygiene.Params := ⟨%s, %s, %s, %s, %s, %s⟩",
-		leanBool(noResume), leanBool(envUntouched), leanBool(noDeadlines), leanBool(sharesDir), leanBool(doorFirst), leanBool(onlyExec)))
+	// the look-up-or-create of a pending slot is ONE critical section in all three places (MuxBroker.getStream,
+	// GRPCBroker.getClientStream, GRPCBroker.getServerStream): the two parties of an id cannot each create a slot
+	slotAtomic := true
+	for _, rn := range [][2]string{{"MuxBroker", "getStream"}, {"GRPCBroker", "getClientStream"}, {"GRPCBroker", "getServerStream"}} {
+		fn := p.fn(rn[0], rn[1])
+		if fn == nil {
+			f.miss = append(f.miss, rn[0]+"."+rn[1])
+			slotAtomic = false
+			continue
+		}
+		if !singleCriticalSection(fn) {
+			slotAtomic = false
+		}
+	}
+	f.lean = append(f.lean, fmt.Sprintf("def hygiene : Hygiene.Params := ⟨%s, %s, %s, %s, %s, %s, %s⟩",
+		leanBool(noResume), leanBool(envUntouched), leanBool(noDeadlines), leanBool(sharesDir), leanBool(doorFirst), leanBool(onlyExec), leanBool(slotAtomic)))
 	f.set("hygiene", map[string]interface{}{"noSessionResumption": noResume, "runnerLeavesEnv": envUntouched, "noWriteDeadlines": noDeadlines,
-		"brokerSharesSocketDir": sharesDir, "doorBeforeAck": doorFirst, "startErrorOnlyFromExec": onlyExec})
+		"brokerSharesSocketDir": sharesDir, "doorBeforeAck": doorFirst, "startErrorOnlyFromExec": onlyExec, "slotLookupAtomic": slotAtomic})
 }
